@@ -47,7 +47,8 @@ type c08Case struct {
 	trunk bool
 	pos   int
 	kind  cloudsim.FaultKind
-	api   string // "" cloud fault; "conflict" / "lost": Node record write fault at position pos
+	kind2 cloudsim.FaultKind // second fault at pos+1 (a failing rollback right after a failing step)
+	api   string             // "" cloud fault; "conflict" / "lost": Node record write fault at position pos
 }
 
 func c08ScriptCfg(dual, trunk bool) ipamCfg {
@@ -90,7 +91,7 @@ func c08Script(h *ipamHist) {
 
 func runC08(c *ctxT) {
 	r := c.R
-	r.Rule = "Closed-loop IPAM histories (real multi-ip ReconcileNode + real agent on simulated API server and cloud). (1) call-time guard: no CreateNetworkInterface beyond the interface slots the flavor leaves, no create/assign beyond the per-interface address limits (judged against the smaller of cloud truth and stored record, so that a lost status write or out-of-band drift is not blamed on the controller). (2) after each history faults stop, a full sync is forced and the controller must reach, within 40 reconciles, two consecutive rounds without cloud mutation and without record change; there record == cloud for interfaces and addresses, no interface the controller created (and learned the id of) is outside the record, every eligible pod is bound in every enabled family on one interface, idle addresses are within [min,max] wherever limits leave room. (3) single-fault enumeration of a scripted scenario: every cloud-call position x 7 fault kinds, every Node-record write position x {conflict, lost}, for IPv4 / dual-stack x trunk. distinct = config class x fault placement"
+	r.Rule = "Closed-loop IPAM histories (real multi-ip ReconcileNode + real agent on simulated API server and cloud). (1) call-time guard: no CreateNetworkInterface beyond the interface slots the flavor leaves, no create/assign beyond the per-interface address limits (judged against the smaller of cloud truth and stored record, so that a lost status write or out-of-band drift is not blamed on the controller). (2) after each history faults stop, a full sync is forced and the controller must reach, within 40 reconciles, two consecutive rounds without cloud mutation and without record change; there record == cloud for interfaces and addresses, no interface the controller created (and learned the id of) is outside the record, every eligible pod is bound in every enabled family on one interface, idle addresses are within [min,max] wherever limits leave room. (3) single-fault enumeration of a scripted scenario: every cloud-call position x 7 fault kinds, adjacent double faults (step fails and so does the call after it) at every position, every Node-record write position x {conflict, lost}, for IPv4 / dual-stack x trunk. distinct = config class x fault placement"
 	r.Assumptions = []string{"cloud simulated at the register.Interface boundary (above SDK retries): a create that fails after its effect without returning the id cannot be rolled back by the controller and is not counted as a leak", "bounded convergence: 40 reconciles after faults stop", "pods that already report an address that is gone, and pods holding one family while waiting for the other on a full interface, are counted, not judged"}
 
 	// ---- (3) enumeration ----
@@ -112,6 +113,12 @@ func runC08(c *ctxT) {
 			for pos := 1; pos <= k+2; pos++ {
 				for _, kind := range c08Kinds {
 					cases = append(cases, c08Case{dual: dual, trunk: trunk, pos: pos, kind: kind})
+				}
+			}
+			// adjacent double faults: the step fails and so does the call that follows it (its rollback)
+			for pos := 1; pos <= k+1; pos++ {
+				for _, k1 := range []cloudsim.FaultKind{cloudsim.FaultErrBefore, cloudsim.FaultQuotaENI, cloudsim.FaultErrAfter} {
+					cases = append(cases, c08Case{dual: dual, trunk: trunk, pos: pos, kind: k1, kind2: cloudsim.FaultErrBefore})
 				}
 			}
 			for pos := 1; pos <= w+1; pos++ {
@@ -138,6 +145,9 @@ func runC08(c *ctxT) {
 			cfg := c08ScriptCfg(cs.dual, cs.trunk)
 			if cs.api == "" {
 				cfg.Faults = map[int]cloudsim.Fault{cs.pos: {Kind: cs.kind}}
+				if cs.kind2 != "" {
+					cfg.Faults[cs.pos+1] = cloudsim.Fault{Kind: cs.kind2}
+				}
 			}
 			hid := 900000 + i
 			fmt.Printf("CASE C08 enum %d %+v\n", hid, cs)
@@ -153,6 +163,9 @@ func runC08(c *ctxT) {
 			r.Eval(1)
 			r.Count("enumerated_single_fault_cases", 1)
 			what := string(cs.kind)
+			if cs.kind2 != "" {
+				what += "+" + string(cs.kind2)
+			}
 			if cs.api != "" {
 				what = "record-write-" + cs.api
 			}
@@ -234,8 +247,41 @@ func c08Converge(h *ipamHist) {
 	_, _ = h.reconcile() // (creates the restarted controller's per-node state, which the forced sync flags)
 	h.ctl.VerifForceSync("node-1")
 
+	// a fresh dual-stack pod picks its IPv4 in map order and rolls it back when that interface has no IPv6:
+	// a quiet round with such a pod still waiting is not a fixed point yet (the next round may pick the pair)
+	waitingFresh := func() int {
+		m.mu.Lock()
+		defer m.mu.Unlock()
+		if m.lastCR == nil {
+			return 0
+		}
+		bound := map[string]int{}
+		for _, e := range m.lastCR.Status.NetworkInterfaces {
+			for _, set := range []map[string]*v1beta1.IP{e.IPv4, e.IPv6} {
+				for _, v := range set {
+					if v.PodID != "" {
+						bound[v.PodID]++
+					}
+				}
+			}
+		}
+		want := 0
+		if h.cfg.V4 {
+			want++
+		}
+		if h.cfg.V6 {
+			want++
+		}
+		n := 0
+		for id, p := range m.pods {
+			if p.Exists && !p.Exited && p.Skip == "" && p.RepV4 == "" && p.RepV6 == "" && bound[id] < want {
+				n++
+			}
+		}
+		return n
+	}
 	stable, rounds := 0, 0
-	for rounds < 40 && stable < 2 {
+	for rounds < 40 && (stable < 2 || waitingFresh() > 0) {
 		calls := h.cloud.MutatingCalls()
 		m.mu.Lock()
 		before := c08RecSig(m.lastCR)
@@ -255,29 +301,34 @@ func c08Converge(h *ipamHist) {
 	if stable < 2 {
 		m.mu.Lock()
 		site := "40-rounds"
-		// structural signature of one known cause: dual stack, an interface whose idle primary IPv4 has no
-		// idle IPv6 partner (it can neither be released nor serve a dual-stack pod), and a MaxPoolSize that,
-		// once those addresses are discounted, cannot hold MinPoolSize usable pairs.
+		// structural signature of one known family of causes: dual stack, and some interface holds idle addresses
+		// of one family without partners of the other (an idle primary IPv4 without IPv6, idle IPv4 on an
+		// interface whose vSwitch is exhausted, ...). The pool sizes by per-family totals, a dual-stack pod needs
+		// a pair on one interface: what MinPoolSize/waiting pods ask for and what MaxPoolSize trims can then
+		// disagree forever. Oscillations without that signature are reported under the plain site.
 		if h.cfg.V4 && h.cfg.V6 && m.lastCR != nil {
 			unpaired := 0
 			for _, e := range m.lastCR.Status.NetworkInterfaces {
 				if e.Status != "InUse" {
 					continue
 				}
-				idle6 := 0
+				i4, i6 := 0, 0
+				for _, v := range e.IPv4 {
+					if v.PodID == "" && v.Status == v1beta1.IPStatusValid {
+						i4++
+					}
+				}
 				for _, v := range e.IPv6 {
 					if v.PodID == "" && v.Status == v1beta1.IPStatusValid {
-						idle6++
+						i6++
 					}
 				}
-				for _, v := range e.IPv4 {
-					if v.Primary && v.PodID == "" && v.Status == v1beta1.IPStatusValid && idle6 == 0 {
-						unpaired++
-					}
+				if i4 != i6 {
+					unpaired++
 				}
 			}
-			if unpaired > 0 && h.cfg.MaxPool-unpaired < h.cfg.MinPool {
-				site = "40-rounds/dual-stack/unpaired-idle-primary"
+			if unpaired > 0 {
+				site = "40-rounds/dual-stack/unpaired-idle"
 			}
 		}
 		m.violate("C08", "C08.no-fixed-point", site, fmt.Sprintf("after faults stopped the controller still mutates cloud or record in round %d (config %+v)", rounds, h.cfg))
